@@ -311,6 +311,9 @@ def run(ctx, crate):
     rule_siblings(ctx, crate, rows)
     rule_constructors(ctx, crate)
     rule_rayon_shares_bar(ctx, crate)
+    # "exhausting an iterator finishes the bar according to its finish behaviour" — every time, also after a reset
+    from .c04 import rule_on_finish_writers
+    rule_on_finish_writers(ctx, crate)
     ctx.extra.setdefault("wrapper_rows", {})[cfg] = {"%s::%s" % k: sorted(sigs(v[1])) for k, v in sorted(rows.items())}
 
 
